@@ -7,6 +7,16 @@ CLAIMED = {
                      "attribute valuation of a 3-4 object domain, the real engine's result list equals the reference filter "
                      "(membership, domain order, no duplicate). z3 decides each path's obligation and that the paths cover "
                      "the whole input space; shapes beyond the bound are outside the claim."),
+    "C02": dict(design_ref="DESIGN.md 7/C02",
+                text="Bounded-exhaustive symbolic execution: for every enumerated 2-3 variable query (joins on integers and on "
+                     "symbolic object references, self-joins, free variables, every selection/order incl. attribute expressions) "
+                     "and EVERY data valuation, the returned row set equals the projected set of satisfying assignments "
+                     "(soundness and completeness per assignment, no duplicate when all variables are selected)."),
+    "C03": dict(design_ref="DESIGN.md 7/C03",
+                text="Bounded-exhaustive symbolic execution: rows(not_^k(c)) for k=0..3, each on a freshly built tree, equal the "
+                     "reference (complement for odd k, original for even k) for every enumerated tree c (all leaf kinds, trees "
+                     "already containing negations) and EVERY data valuation; the a==b boundaries that separate ge from gt are "
+                     "found by the solver, not sampled."),
 }
 
 NOT_APPLICABLE = {pid: PENDING for pid in ["C%02d" % i for i in range(1, 21)] if pid not in CLAIMED}
